@@ -3,6 +3,7 @@ Property C09 — every evaluation leaves the engine's scope/call stack as it fou
 -/
 import ChaiVerif.Lemmas.ChaiRunShape
 import ChaiVerif.Lemmas.ChaiRunFrame
+import ChaiVerif.Lemmas.ChaiRunParamsMain
 namespace ChaiVerif.C09
 open ChaiVerif.Chai
 
@@ -104,6 +105,46 @@ theorem earlier_declarations_survive (ρ : List FunDef) (fuel : Nat) (prog : Lis
   rw [he, hs]
   simp only [modifyLast]
   rw [modifyLast_append_singleton]
+
+/-! ### saved call parameters -/
+
+theorem mem_modifyLast {α} (f : α → α) : ∀ (l : List α) (x : α), x ∈ modifyLast f l → x ∈ l ∨ ∃ y ∈ l, x = f y := by
+  intro l
+  induction l with
+  | nil => intro x h; cases h
+  | cons a as ih =>
+    intro x h
+    cases as with
+    | nil => simp [modifyLast] at h; exact Or.inr ⟨a, by simp, h⟩
+    | cons b bs =>
+      have e : modifyLast f (a :: b :: bs) = a :: modifyLast f (b :: bs) := rfl
+      rw [e] at h
+      rcases List.mem_cons.mp h with h | h
+      · exact Or.inl (by simp [h])
+      · rcases ih x h with h' | ⟨y, hy, hxy⟩
+        · exact Or.inl (List.mem_cons_of_mem _ h')
+        · exact Or.inr ⟨y, List.mem_cons_of_mem _ hy, hxy⟩
+
+/-- **An evaluation touches at most the last entry of call_params, and gives it back**: started outside any call, it leaves that entry
+    as it was or empty (fifth induction over the evaluator, `run_pframe`). -/
+theorem saved_parameters_frame (ρ : List FunDef) (fuel : Nat) (j : Job) (s : St) :
+    ∃ e : List Loc, (run ρ fuel j s).2.params = modifyLast (fun _ => e) s.params ∧ (s.depth = 0 → e = [] ∨ s.params.getLast? = some e) :=
+  (run_pframe ρ fuel j s).2
+
+/-- **Saved parameters (and the converted temporaries kept with them) are released when the outermost call returns**: from a state at
+    rest — call depth 0, nothing saved — every evaluation, however it ends, leaves nothing saved. -/
+theorem saved_parameters_released_at_rest (ρ : List FunDef) (fuel : Nat) (j : Job) (s : St)
+    (hd : s.depth = 0) (he : ∀ e ∈ s.params, e = []) : ∀ e ∈ (run ρ fuel j s).2.params, e = [] := by
+  obtain ⟨e0, hp, hc⟩ := saved_parameters_frame ρ fuel j s
+  have he0 : e0 = [] := by
+    rcases hc hd with h | h
+    · exact h
+    · exact he e0 (List.mem_of_getLast? h)
+  intro e hin
+  rw [hp] at hin
+  rcases mem_modifyLast _ _ _ hin with h | ⟨y, _, hy⟩
+  · exact he e h
+  · rw [hy, he0]
 
 /-- non-vacuity: a program that throws from a callback inside a function inside a loop inside a try
     still ends in the resting shape, and the state really was perturbed on the way (heap grew). -/
